@@ -29,9 +29,13 @@ CLAIMS = {
             "image (any subset of un-synced writes, torn writes, torn header invalid) selects the old or the new header with all of its "
             "pages intact, given copy-on-write (proved from the page-lifecycle contract, PLFacts.commit_cow, and DISCHARGED for the engine "
             "model: EngineCow.engine_commit_crash_safe shows every commit of Engine.v satisfies the premise, so the crash theorems apply to "
-            "every engine transaction); the order and the contract "
+            "every engine transaction); HISTORIES: any number of crashing commit attempts in a row keep a selected header with settled "
+            "pages (CrashHistories.crash_history_inv; the target-slot rule is read from write_data by the translator), and at the engine "
+            "level the database after any number of crash / reopen rounds reads as the reference after exactly the transactions whose "
+            "commit survived, in order (EngineCrashHistories.engine_crash_history); the order and the contract "
             "are tied to the code by strace traces and per-commit contract validation; images built from real bytes are opened by the "
-            "library and the model.",
+            "library and the model, and on a sample the library recovers, commits once more and that commit's header write is torn too "
+            "(second crash).",
             "premise NoTornCollision (torn header is not a valid header) is evaluated on every torn image; fsync/page-cache semantics "
             "of Linux are assumed; strace is the observer",
             "Coq theorem over the generated commit order + strace-validated I/O + crash-image enumeration", "6/C02"),
@@ -117,7 +121,9 @@ CLAIMS = {
             "Coq (CrashFacts/CrashCurrent): for the I/O order and the free-list publication rule the translator reads from the current "
             "source, whichever call of a commit fails (applied, lost or torn), the disk holds exactly the pre or the post state with all "
             "pages intact, and the shared free list the process keeps matches the header the next transaction reads; pinned behaviour "
-            "refuted; every write/fsync/fallocate of real commits is made to fail once (strace inject, LD_PRELOAD short-write shim) and "
+            "refuted; engine model with contents (EngineFaultHistories.engine_fault_history): after ANY history of failing and successful "
+            "commits in one process the database reads as the reference after exactly the commits that are visible, in order, and the "
+            "complete engine invariant holds -- a commit that reported an error is entirely there or entirely absent; every write/fsync/fallocate of real commits is made to fail once (strace inject, LD_PRELOAD short-write shim) and "
             "the continued history, check, reopen and decoded files must match one of the two reference timelines.",
             "copy-on-write premise from the page-lifecycle contract (validated per commit); strace / shim are the fault injectors",
             "Coq theorem over generated I/O order and publication rule + exhaustive single-fault injection", "6/C11"),
